@@ -6,7 +6,7 @@
    voteproof with more expels than n - Threshold(n) (its reduced suffrage is smaller than the quorum): the class of the
    open finding "expel-partition". *)
 From Coq Require Import ZArith NArith List Bool.
-From MV Require Import C03.Model C03.Proofs Gen.C03.
+From MV Require Import C03.Model C03.Float C03.Proofs Gen.C03.
 Import ListNotations.
 Open Scope Z_scope.
 
